@@ -680,36 +680,32 @@ impl Compiler {
         logical: &crate::ast::LogicalExpression,
         dst: Register,
     ) -> Result<(), JsError> {
-        // Compile left operand
-        self.compile_expression(&logical.left, dst)?;
+        // A chain `a && b && c ...` is nested to the left as deep as it is long: walk that spine
+        // iteratively instead of recursing once per operator
+        let mut spine: Vec<&crate::ast::LogicalExpression> = vec![logical];
+        while let Some(Expression::Logical(inner)) = spine.last().map(|node| node.left.as_ref()) {
+            spine.push(inner);
+        }
 
-        // Emit conditional jump based on operator
-        let skip_right = match logical.operator {
-            LogicalOp::And => {
-                // If left is falsy, skip right and keep left result
-                self.builder.emit_jump_if_false(dst)
-            }
-            LogicalOp::Or => {
-                // If left is truthy, skip right and keep left result
-                self.builder.emit_jump_if_true(dst)
-            }
-            LogicalOp::NullishCoalescing => {
-                // If left is NOT nullish, skip right and keep left result
-                // If left IS nullish, fall through and evaluate right
-                let skip_right = self.builder.emit_jump_if_not_nullish(dst);
-                // Compile right operand
-                self.compile_expression(&logical.right, dst)?;
-                // Patch the skip jump to point here
-                self.builder.patch_jump(skip_right);
-                return Ok(());
-            }
-        };
+        // Compile the leftmost operand, then each operator from the innermost outwards
+        if let Some(innermost) = spine.last() {
+            self.compile_expression(&innermost.left, dst)?;
+        }
+        for node in spine.iter().rev() {
+            // Emit conditional jump based on operator: skip the right operand and keep the
+            // left result when the operator short-circuits
+            let skip_right = match node.operator {
+                LogicalOp::And => self.builder.emit_jump_if_false(dst),
+                LogicalOp::Or => self.builder.emit_jump_if_true(dst),
+                LogicalOp::NullishCoalescing => self.builder.emit_jump_if_not_nullish(dst),
+            };
 
-        // Compile right operand (only reached if short-circuit didn't happen)
-        self.compile_expression(&logical.right, dst)?;
+            // Compile right operand (only reached if short-circuit didn't happen)
+            self.compile_expression(&node.right, dst)?;
 
-        // Patch the skip jump
-        self.builder.patch_jump(skip_right);
+            // Patch the skip jump
+            self.builder.patch_jump(skip_right);
+        }
 
         Ok(())
     }
